@@ -22,3 +22,5 @@ uint64_t tbb_active_value(int32_t par) {
     for (int i = 0; i < MAXLIVE; i++) if (live_obj[i] && live_par[i] == par && (!any || live_val[i] < best)) { best = live_val[i]; any = 1; }
     return any ? best : tbb_default_parallelism;
 }
+/* tbb::detail::r1::global_control_active_value(int): the value TBB reports for a parameter */
+uint64_t f__ZN3tbb6detail2r127global_control_active_valueEi(int32_t par) { return tbb_active_value(par); }
